@@ -574,7 +574,19 @@ func GenExact(r *simrt.RNG, cfg GenCfg) World {
 	nd := r.Intn(9)
 	for i := 0; i < nd; i++ {
 		p := t.In[r.Intn(len(t.In))].Label
-		switch r.Intn(7) {
+		switch r.Intn(8) {
+		case 7: // the parameter's own key with the subtype toggled: a distinct key, never the exact one
+			l := p
+			if l.Sub == "" {
+				l.Sub = Subs[r.Intn(2)]
+			} else {
+				l.Sub = ""
+			}
+			if IsIface(l.Type) || keys[keyOf(l)] {
+				continue
+			}
+			keys[keyOf(l)] = true
+			supply(l)
 		case 0, 1: // same-typed value under another name / subtype
 			l := Label{Type: p.Type, Name: g.name(), Sub: g.sub()}
 			if !cfg.Names {
